@@ -13,7 +13,7 @@ import numpy as np
 ID = "C20"
 LEVEL = "exploration"
 RULE = (
-    "grids: t0 in {0,0.1,1.0} x dt in {0.1,0.2,0.25,0.05,0.01,1/3,0.007 (+1 seed-generic)} x t1 = t0+dt*k (k=1..30) and t0+dt*(k+0.35) (k in {1,2,5,10}) "
+    "grids: t0 in {0,0.1,1.0,-1.0,-0.5} x dt in {0.1,0.2,0.25,0.05,0.01,1/3,0.007 (+1 seed-generic)} x t1 = t0+dt*k (k=1..30) and t0+dt*(k+0.35) (k in {1,2,5,10}) "
     "x 6 dynamic solvers, one case per (solver,t0,dt); objects: 4 systems x 8 solvers; a grid is non-trivial if the solver returned a solution"
 )
 ASSUMPTIONS = [
@@ -23,7 +23,7 @@ ASSUMPTIONS = [
 ]
 MIN_NONTRIVIAL = 20
 SOLVERS = ["Moreau", "Rattle", "BackwardEuler", "DualStormerVerlet", "ScipyIVP", "ScipyDAE"]
-T0S = [0.0, 0.1, 1.0]
+T0S = [0.0, 0.1, 1.0, -1.0, -0.5]  # negative initial times: windows inside the negative axis and windows ending exactly at / crossing 0 (seeded C20-m)
 DTS = [0.1, 0.2, 0.25, 0.05, 0.01, 1.0 / 3.0, 0.007]
 WIDTH = {"q": "nq", "q_dot": "nq", "u": "nu", "u_dot": "nu", "la_g": "nla_g", "P_g": "nla_g", "mu_g": "nla_g", "la_gamma": "nla_gamma",
          "P_gamma": "nla_gamma", "la_c": "nla_c", "la_N": "nla_N", "P_N": "nla_N", "la_F": "nla_F", "P_F": "nla_F"}
